@@ -50,7 +50,7 @@ Lemma accumulate_term f k file l0 : marker f = [] -> (1 <= k)%nat ->
     term_post f file pos base (accumulate true fuel f k file l0 pos temp re app).
 Proof.
   intros Hm Hk. induction fuel as [|fuel IH]; intros pos temp re app base Hc Hne HJ HR; [exact I|].
-  cbn [accumulate].
+  cbn [accumulate]. unfold m_is_finished, m_reported, m_lines_after, m_oneline_incomplete, m_oneline_kept, m_size_after, m_header_line, m_plus_line in *.
   destruct (firstn k (skipn pos file)) as [|x r] eqn:Eraw.
   - assert (HX : skipn pos file = []) by (apply (firstn_nil_inv k); assumption).
     cbn [length negb orb]. rewrite Nat.add_0_r.
@@ -139,7 +139,7 @@ Qed.
 Lemma cut_delim_ok sep chunk size nl : cut (Delim sep) chunk = CutOk size nl ->
   ends_nl (firstn size chunk) = true /\ (ends_nl chunk = true -> size = length chunk).
 Proof.
-  unfold cut. intros H.
+  unfold cut. unfold m_is_finished, m_reported, m_lines_after, m_oneline_incomplete, m_oneline_kept, m_size_after, m_header_line, m_plus_line in *. intros H.
   destruct (nl_pos chunk) as [|p0 ps] eqn:En; [discriminate|].
   assert (Hnn : nl_pos chunk <> []) by (rewrite En; discriminate).
   rewrite <- En in H.
@@ -182,7 +182,7 @@ Lemma read_chunk_delim sep m k file st D : (1 <= k)%nat -> Inv m file st D ->
 Proof.
   intros Hk HI.
   pose proof (read_chunk_spec true (Delim sep) m k file st D Hk HI) as HG.
-  unfold read_chunk in *.
+  unfold read_chunk in *. unfold m_is_finished, m_reported, m_lines_after, m_oneline_incomplete, m_oneline_kept, m_size_after, m_header_line, m_plus_line in *.
   set (temp0 := match r_prepend st with [] => [] | p => [p] end) in *.
   assert (Ht0 : concat temp0 = r_prepend st ++ []).
   { unfold temp0. destruct (r_prepend st); [reflexivity|]. cbn [concat]. reflexivity. }
